@@ -4,15 +4,16 @@ import RedisVerif.Lemmas.Resp
 /-
   C15 — RESP decoding is total, bounded, prefix-stable; replies re-decode to themselves.
 
-  All theorems are about the byte-exact models `parse1` (= `RespCodec::parse`, codec 1) and
-  `parse2` (= `RespParser::parse`, codec 2) of `Model/Resp.lean`, for EVERY byte string (no bound
-  on length, nesting or values) and every machine environment `env` (stack frames available,
-  largest allocation request granted).  `Small bs` (= `bs.length < 2^63`) is the Rust invariant
-  that a slice holds at most `isize::MAX` bytes; it is part of the full statements.
+  All theorems are about the byte-exact models of `Model/Resp.lean`: `parse1` (= `RespCodec::parse`,
+  codec 1) and `parse2` (= `RespParser::parse`, codec 2) AFTER the fix commits, for EVERY byte
+  string (no bound on length, nesting or values) and every machine environment `env` (stack
+  frames available, largest uncapped allocation request granted).  `Small bs` (fewer than 2^56
+  bytes) says that the input is a buffer that can exist.
 
-  Where the code as it is violates the property the full statement stays as a `def … : Prop`,
-  followed by a kernel-checked `…_counterexample` and the strongest `…_partial` form whose extra
-  hypotheses are decidable predicates, each with a non-vacuity `example`.
+  The decoders as they were BEFORE the fixes are the instances `codec1Pinned` / `codec2Pinned` (and
+  `encode2Pinned`) of the same generic transcription; the `…_pinned_counterexample` theorems keep
+  the refutations of the full statements for the pinned behaviour as kernel-checked facts, so the
+  reason for every fix stays visible next to the theorem it made true.
 -/
 namespace RedisVerif.C15
 open RedisVerif.Resp
@@ -37,248 +38,282 @@ def nested : Nat → Bytes
 /-- a roomy machine: 64 frames of stack, 1 GiB per allocation request -/
 def env0 : Env := { depth := 64, mem := 1073741824 }
 
-/-! ## 1. never panics -/
+theorem good_of (c : Codec) (h : c = codec1 ∨ c = codec2) : c.Good ∧ c.Fixed maxNesting ∧ c.CapSane ∧
+    (c.prealloc = true → c.capPrealloc = true) := by
+  cases h with
+  | inl h => subst h; exact ⟨codec1_good, codec1_fixed, fun _ => rfl, fun _ => rfl⟩
+  | inr h => subst h; exact ⟨codec2_good, codec2_fixed, fun h => by simp [codec2] at h, fun h => by simp [codec2] at h⟩
 
-/-- full statement: there is a machine on which the decoder never panics / aborts, whatever the
-    input -/
+/-! ## 1. never panics, never aborts, never overflows the stack -/
+
+/-- full statement: there is a machine on which the decoder never crashes, whatever the input -/
 def C15_no_crash (c : Codec) : Prop :=
   ∃ env : Env, ∀ bs : Bytes, Small bs → (parseG c env bs).out.isCrash = false
 
-theorem bulk_negative_len_crashes (c : Codec) (h : c = codec1 ∨ c = codec2) (env : Env) :
+/-- NO CRASH for ALL byte strings: on every machine with at least 33 decoder frames of stack both
+    repaired decoders answer value / incomplete / protocol error -/
+theorem no_crash (c : Codec) (h : c = codec1 ∨ c = codec2) (env : Env) (hd : maxNesting + 1 ≤ env.depth)
+    (bs : Bytes) (hs : Small bs) : (parseG c env bs).out.isCrash = false := by
+  obtain ⟨hg, hf, _, _⟩ := good_of c h
+  exact parseD_no_crash c hg maxNesting hf env.mem env.depth 0 bs (Nat.zero_le _) (by omega) hs
+
+theorem no_crash_codec1 : C15_no_crash codec1 :=
+  ⟨env0, fun bs hs => no_crash codec1 (Or.inl rfl) env0 (by decide) bs hs⟩
+
+theorem no_crash_codec2 : C15_no_crash codec2 :=
+  ⟨env0, fun bs hs => no_crash codec2 (Or.inr rfl) env0 (by decide) bs hs⟩
+
+/-- the inputs that crashed the pinned decoders are protocol errors now -/
+example : (parse1 env0 bulkMinus2).out = .error .badLen ∧ (parse2 env0 bulkMinus2).out = .error .badLen ∧
+    (parse1 env0 arrayMinus5).out = .error .badLen ∧ (parse1 env0 arrayBillion).out = .incomplete .elems ∧
+    (parse1 env0 arrayBillion).allocs = [] := ⟨rfl, rfl, rfl, rfl, rfl⟩
+set_option maxRecDepth 8000 in
+example : (parse1 env0 (nested 33)).out.errKind = some .tooDeep ∧ (parse2 env0 (nested 33)).out.errKind = some .tooDeep ∧
+    (parse1 env0 (nested 32)).out.isOk = true := by decide
+
+theorem bulk_negative_len_crashes_pinned (c : Codec) (h : c = codec1Pinned ∨ c = codec2Pinned) (env : Env) :
     (parseG c env bulkMinus2).out.isCrash = true := by
   unfold parseG
   cases hd : env.depth with
   | zero => simp [parseD, Outcome.isCrash]
   | succ d =>
-    have hb : parseD c env.mem (d + 1) bulkMinus2 = parseBulk c bulkMinus2 := by
+    have hb : parseD c env.mem (d + 1) 0 bulkMinus2 = parseBulk c bulkMinus2 := by
       simp [parseD, bulkMinus2]
     rw [hb]
     cases h with
     | inl h => subst h; decide
     | inr h => subst h; decide
 
-/-- `$-2\r\n` panics both decoders on every machine (slice index out of range) -/
-theorem no_crash_counterexample (c : Codec) (h : c = codec1 ∨ c = codec2) : ¬ C15_no_crash c := by
+/-- PINNED behaviour (before fix 8e8c60e): `$-2\r\n` panicked both decoders on every machine -/
+theorem no_crash_pinned_counterexample (c : Codec) (h : c = codec1Pinned ∨ c = codec2Pinned) : ¬ C15_no_crash c := by
   intro ⟨env, hall⟩
   have h1 := hall bulkMinus2 (by decide)
-  rw [bulk_negative_len_crashes c h env] at h1
+  rw [bulk_negative_len_crashes_pinned c h env] at h1
   exact absurd h1 (by decide)
 
-/-- `*-5\r\n`: codec 1 panics with "capacity overflow", codec 2 answers an empty array -/
-theorem array_negative_len_counterexample :
-    (parse1 env0 arrayMinus5).out = .crash .capacityOverflow ∧
-    (parse2 env0 arrayMinus5).out = .ok (.array []) 5 := ⟨rfl, rfl⟩
+/-- PINNED behaviour (before fix e863343): `*-5\r\n` "capacity overflow", a huge positive length the
+    same, `*1000000000\r\n` a 40 GB request -/
+theorem array_len_pinned_counterexample :
+    (parseG codec1Pinned env0 arrayMinus5).out = .crash .capacityOverflow ∧
+    (parseG codec1Pinned env0 [42, 50, 51, 48, 53, 56, 52, 51, 48, 48, 57, 50, 49, 51, 54, 57, 51, 57, 54, 13, 10]).out =
+      .crash .capacityOverflow ∧
+    (parseG codec1Pinned env0 arrayBillion).out = .crash .allocAbort ∧
+    (parseG codec1Pinned env0 arrayBillion).allocs = [40000000000] := ⟨rfl, rfl, rfl, rfl⟩
 
-/-- `*230584300921369396\r\n` (a positive length): 40 × that many bytes exceed isize::MAX —
-    "capacity overflow" panic in codec 1 -/
-theorem array_huge_len_counterexample :
-    (parse1 env0 [42, 50, 51, 48, 53, 56, 52, 51, 48, 48, 57, 50, 49, 51, 54, 57, 51, 57, 54, 13, 10]).out =
-      .crash .capacityOverflow := rfl
+/-! ## 2. recursion depth -/
 
-/-- `*1000000000\r\n`: codec 1 asks the allocator for 40 GB before it has seen a single element
-    (refused on this machine: abort; granted on a bigger one: see `alloc_counterexample`) -/
-theorem array_prealloc_abort_counterexample :
-    (parse1 env0 arrayBillion).out = .crash .allocAbort ∧ (parse1 env0 arrayBillion).allocs = [40000000000] :=
-  ⟨rfl, rfl⟩
+/-- full statement: some stack depth is enough for every input, of whatever size -/
+def C15_depth_bounded (c : Codec) : Prop :=
+  ∃ D : Nat, ∀ (mem : Nat) (bs : Bytes), 40 < mem → (parseD c mem D 0 bs).out ≠ .crash .stackOverflow
 
-/-- the recursion has no depth limit of its own: whatever the stack size, `depth` nested arrays
-    (all length headers sane) overflow it -/
-theorem stack_overflow_counterexample (c : Codec) (h : c = codec1 ∨ c = codec2) (mem : Nat) (hm : 40 < mem) :
-    ∀ d : Nat, (parseD c mem d (nested d)).out = .crash .stackOverflow := by
+/-- 33 frames are enough: arrays nested deeper than `MAX_NESTING_DEPTH` = 32 are a protocol error -/
+theorem depth_bounded (c : Codec) (h : c = codec1 ∨ c = codec2) : C15_depth_bounded c := by
+  obtain ⟨_, hf, _, _⟩ := good_of c h
+  exact ⟨maxNesting + 1, fun mem bs _ => parseD_noSO c maxNesting hf.nest mem (maxNesting + 1) 0 bs (Nat.zero_le _) (by omega)⟩
+
+/-- PINNED behaviour (before fix 468f0b7): whatever the stack size, `depth` nested arrays overflow it -/
+theorem stack_overflow_pinned (c : Codec) (h : c = codec1Pinned ∨ c = codec2Pinned) (mem : Nat) (hm : 40 < mem) :
+    ∀ d nest : Nat, (parseD c mem d nest (nested d)).out = .crash .stackOverflow := by
   intro d
   induction d with
-  | zero => simp [parseD]
+  | zero => intro nest; simp [parseD]
   | succ d ih =>
-    have hpre : ¬ (preReq c 1 ≥ mem ∧ preReq c 1 ≠ 0) := by
+    intro nest
+    have hpre : ∀ r, ¬ (¬ c.capPrealloc = true ∧ preReq c 1 r ≥ mem ∧ preReq c 1 r ≠ 0) := by
+      intro r
       cases h with
-      | inl h => subst h; simp [preReq, codec1, asUsize, W, elemSize]; omega
-      | inr h => subst h; simp [preReq, codec2]
-    have hpre2 : ¬ (preReq c 1 > isizeMax) := by
+      | inl h => subst h; simp [preReq, codec1Pinned, asUsize, W, elemSize]; omega
+      | inr h => subst h; simp [preReq, codec2Pinned]
+    have hpre2 : ∀ r, ¬ (preReq c 1 r > isizeMax) := by
+      intro r
       cases h with
-      | inl h => subst h; simp [preReq, codec1, asUsize, W, elemSize, isizeMax]
-      | inr h => subst h; simp [preReq, codec2]
+      | inl h => subst h; simp [preReq, codec1Pinned, asUsize, W, elemSize, isizeMax]
+      | inr h => subst h; simp [preReq, codec2Pinned]
+    have hneg : ¬ (c.arrayNegCheck = true ∧ (1 : Int) < 0) := by omega
     have hfind : c.findCrlf (42 :: 49 :: 13 :: 10 :: nested d) = some 2 := by
       cases h with
-      | inl h => subst h; simp [codec1, findCrlf1]
-      | inr h => subst h; simp [codec2, findCrlf2]
+      | inl h => subst h; simp [codec1Pinned, findCrlf1]
+      | inr h => subst h; simp [codec2Pinned, findCrlf2]
+    have htd : tooDeep c nest = false := by
+      cases h with
+      | inl h => subst h; rfl
+      | inr h => subst h; rfl
     have hne : nested d ≠ [] := by cases d <;> simp [nested]
     simp only [nested, parseD]
     simp only [show ¬ (42 : Nat) = 43 by decide, show ¬ (42 : Nat) = 45 by decide,
-      show ¬ (42 : Nat) = 58 by decide, show ¬ (42 : Nat) = 36 by decide, if_false, if_true]
+      show ¬ (42 : Nat) = 58 by decide, show ¬ (42 : Nat) = 36 by decide, if_false, if_true, htd,
+      Bool.false_eq_true]
     unfold parseArray
     rw [hfind]
     have hf : field (42 :: 49 :: 13 :: 10 :: nested d) 2 = some [49] := by simp [field]
     have hp : parseI64 [49] = some 1 := by decide
-    simp only [hf, hp, show ¬ ((1 : Int) = -1) by decide, hpre, hpre2, if_false]
+    simp only [hf, hp, show ¬ ((1 : Int) = -1) by decide, hneg, hpre, hpre2, if_false]
     have hdrop : (42 :: 49 :: 13 :: 10 :: nested d).drop (2 + 2) = nested d := by simp
     rw [hdrop]
     have : (1 : Int).toNat = 1 := by decide
     rw [this]
     unfold elems
-    simp only [hne, and_false, if_false, ih]
+    simp only [hne, and_false, if_false, ih (nest + 1)]
 
-/-- full statement: some stack depth is enough for every input -/
-def C15_depth_bounded (c : Codec) : Prop :=
-  ∃ D : Nat, ∀ (mem : Nat) (bs : Bytes), 40 < mem → (parseD c mem D bs).out ≠ .crash .stackOverflow
-
-theorem depth_bounded_counterexample (c : Codec) (h : c = codec1 ∨ c = codec2) : ¬ C15_depth_bounded c := by
+theorem depth_bounded_pinned_counterexample (c : Codec) (h : c = codec1Pinned ∨ c = codec2Pinned) :
+    ¬ C15_depth_bounded c := by
   intro ⟨D, hall⟩
-  exact hall 41 (nested D) (by decide) (stack_overflow_counterexample c h 41 (by decide) D)
+  exact hall 41 (nested D) (by decide) (stack_overflow_pinned c h 41 (by decide) D 0)
 
-/-- PARTIAL: no panic, no abort, no stack overflow — for every input all of whose length headers
-    are sane (`LengthsSane`: declared length ≥ -1; an array announces at most as many elements as
-    bytes follow), that nests (counts `*` bytes) less deep than the stack, and that is smaller
-    than the allocation limit / 40 (codec 2 needs no allocation limit) -/
-theorem no_crash_partial (c : Codec) (h : c = codec1 ∨ c = codec2) (env : Env) (bs : Bytes)
-    (hsane : LengthsSane c bs = true) (hdepth : stars bs < env.depth)
-    (hlen : bs.length < 9223372036854775800)
-    (hmem : c.prealloc = false ∨ (elemSize * bs.length < env.mem ∧ env.mem ≤ 9223372036854775808)) :
-    (parseG c env bs).out.isCrash = false := by
-  have hc : c.Good := by cases h with
-    | inl h => subst h; exact codec1_good
-    | inr h => subst h; exact codec2_good
-  exact parseD_no_crash c hc env.mem env.depth bs hsane hdepth hlen hmem
-
-theorem no_crash_partial_codec1 (env : Env) (bs : Bytes)
-    (hsane : LengthsSane codec1 bs = true) (hdepth : stars bs < env.depth)
-    (hmem : elemSize * bs.length < env.mem) (hmem2 : env.mem ≤ 9223372036854775808) :
-    (parse1 env bs).out.isCrash = false :=
-  no_crash_partial codec1 (Or.inl rfl) env bs hsane hdepth (by unfold elemSize at hmem; omega)
-    (Or.inr ⟨hmem, hmem2⟩)
-
-theorem no_crash_partial_codec2 (env : Env) (bs : Bytes)
-    (hsane : LengthsSane codec2 bs = true) (hdepth : stars bs < env.depth)
-    (hlen : bs.length < 9223372036854775800) :
-    (parse2 env bs).out.isCrash = false :=
-  no_crash_partial codec2 (Or.inr rfl) env bs hsane hdepth hlen (Or.inl rfl)
-
-/-- non-vacuity: a real command frame satisfies every hypothesis (and decodes) -/
-example : LengthsSane codec1 getK = true ∧ LengthsSane codec2 getK = true ∧ stars getK < env0.depth ∧
-    elemSize * getK.length < env0.mem ∧ (parse1 env0 getK).out.isOk = true := by decide
-/-- the predicate excludes the bad class -/
-example : LengthsSane codec1 bulkMinus2 = false ∧ LengthsSane codec1 arrayMinus5 = false ∧
-    LengthsSane codec1 arrayBillion = false := by decide
-
-/-! ## 2. never over-reads: consumed ≤ length (and ≥ 1) -/
+/-! ## 3. never over-reads: consumed ≤ length (and ≥ 1) -/
 
 def C15_consumed_le_length (c : Codec) : Prop :=
   ∀ (env : Env) (bs : Bytes), Small bs → ∀ v k, (parseG c env bs).out = .ok v k → 1 ≤ k ∧ k ≤ bs.length
 
 theorem consumed_le_length_codec1 : C15_consumed_le_length codec1 :=
-  fun env bs hs => parseD_consumed codec1 codec1_good env.mem env.depth bs hs
+  fun env bs hs => parseD_consumed codec1 codec1_good env.mem env.depth 0 bs hs
 
 theorem consumed_le_length_codec2 : C15_consumed_le_length codec2 :=
-  fun env bs hs => parseD_consumed codec2 codec2_good env.mem env.depth bs hs
+  fun env bs hs => parseD_consumed codec2 codec2_good env.mem env.depth 0 bs hs
 
 example : (parse1 env0 getK).out = .ok (.array [.bulk [71, 69, 84], .bulk [107]]) 20 := rfl
 
-/-! ## 3. allocation is not driven by an unvalidated length field -/
+/-! ## 4. allocation is not driven by an unvalidated length field -/
 
-/-- full statement (the bound the harness oracle uses): the decoder's allocation requests sum to at
-    most 64 bytes per input byte plus one page -/
+/-- full statement: whatever the input and the outcome, the decoder's allocation requests sum to at
+    most 3 + 40·32 = 1283 bytes per input byte (3 for copies, 40 per array level: the
+    pre-allocation is capped by the bytes that follow the header, 14 bytes per remaining byte) -/
 def C15_alloc_bounded (c : Codec) : Prop :=
-  ∀ (env : Env) (bs : Bytes), Small bs → (parseG c env bs).alloc ≤ 64 * bs.length + 4096
+  ∀ (env : Env) (bs : Bytes), Small bs → (parseG c env bs).alloc ≤ 1283 * bs.length
 
-/-- codec 2 (`Vec::new()`, copies only): at most 3 bytes per input byte, for every input -/
-theorem alloc_bounded_codec2 : C15_alloc_bounded codec2 := by
+theorem alloc_bounded (c : Codec) (h : c = codec1 ∨ c = codec2) : C15_alloc_bounded c := by
+  obtain ⟨hg, hf, hcs, hcap⟩ := good_of c h
   intro env bs hs
-  have := parseD_alloc_len codec2 codec2_good env.mem env.depth bs hs (Or.inl rfl)
-  have hk : K codec2 env.depth = 3 := by simp [K, pf, codec2]
-  rw [hk] at this
+  have := parseD_alloc_lenN c hg hcs hcap maxNesting hf.nest env.mem env.depth 0 bs (Nat.zero_le _) hs
+  unfold KN maxNesting at this
   unfold Res.alloc parseG
-  omega
+  simpa using this
 
-/-- codec 1: 13 bytes `*1000000000\r\n` request 40 GB (on a machine that grants it) -/
-theorem alloc_counterexample : ¬ C15_alloc_bounded codec1 := by
-  intro h
-  have := h { depth := 8, mem := 1099511627776 } arrayBillion (by decide)
-  exact absurd this (by decide)
-
-/-- for every COMPLETE frame codec 1 stays proportional to what it consumed, whatever the nesting:
-    at most 43 bytes per consumed byte (no hypothesis on the input) -/
+/-- every COMPLETE frame: at most 43 bytes per consumed byte, whatever the nesting -/
 theorem alloc_ok_bounded (c : Codec) (h : c = codec1 ∨ c = codec2) (env : Env) (bs : Bytes) (hs : Small bs)
     (v : Val) (k : Nat) (hok : (parseG c env bs).out = .ok v k) : (parseG c env bs).alloc ≤ 43 * k := by
-  have hc : c.Good := by cases h with
-    | inl h => subst h; exact codec1_good
-    | inr h => subst h; exact codec2_good
-  have := parseD_alloc_ok2 c hc env.mem env.depth bs hs v k hok
-  have hpf : pf c ≤ 40 := by unfold pf elemSize; split <;> omega
+  obtain ⟨hg, _, hcs, _⟩ := good_of c h
+  have := parseD_alloc_ok2 c hg hcs env.mem env.depth 0 bs hs v k hok
+  have hpf : pf c ≤ 40 := pf_le c
   have : (3 + pf c) * k ≤ 43 * k := Nat.mul_le_mul_right _ (by omega)
   unfold Res.alloc parseG
   omega
 
-/-- PARTIAL (codec 1, any outcome): when every length header is sane the requests sum to at most
-    `3 + 40·depth` bytes per input byte (each nesting level may pre-allocate once more for the
-    bytes that follow; `*9\r\n*9\r\n…` does) -/
-theorem alloc_bounded_partial (env : Env) (bs : Bytes) (hs : Small bs)
-    (hsane : LengthsSane codec1 bs = true) :
-    (parse1 env bs).alloc ≤ (3 + 40 * env.depth) * bs.length := by
-  have := parseD_alloc_len codec1 codec1_good env.mem env.depth bs hs (Or.inr hsane)
-  have hk : K codec1 env.depth = 3 + 40 * env.depth := by simp [K, pf, codec1, elemSize]
-  rw [hk] at this
-  exact this
+/-- PINNED behaviour (before fix e863343): 13 bytes `*1000000000\r\n` requested 40 GB -/
+theorem alloc_pinned_counterexample : ¬ C15_alloc_bounded codec1Pinned := by
+  intro h
+  have := h { depth := 8, mem := 1099511627776 } arrayBillion (by decide)
+  exact absurd this (by decide)
 
-example : Small getK ∧ LengthsSane codec1 getK = true ∧ (parse1 env0 getK).alloc = 84 := by decide
+example : (parse1 env0 getK).alloc = 84 ∧ (parse1 env0 [42, 57, 57, 57, 57, 13, 10]).alloc = 0 := by decide
 
-/-! ## 4. prefix stability -/
+/-! ## 5. prefix stability -/
 
-/-- full statement: a decided outcome (value, protocol error — and also a crash) never changes when
-    more bytes arrive; in particular `parse a = ok v n → parse (a ++ b) = ok v n` with the same
-    allocation requests -/
+/-- full statement: a decided outcome (value and consumed count, protocol error) never changes when
+    more bytes arrive -/
 def C15_prefix_stable (c : Codec) : Prop :=
   ∀ (env : Env) (a b : Bytes), Small (a ++ b) → (parseG c env a).out.isIncomplete = false →
-    parseG c env (a ++ b) = parseG c env a
+    (parseG c env (a ++ b)).out = (parseG c env a).out
 
 theorem prefix_stable_codec1 : C15_prefix_stable codec1 :=
-  fun env a b hs hd => parseD_stable codec1 codec1_good env.mem env.depth a b hs hd
+  fun env a b hs hd => parseD_stable codec1 codec1_good env.mem env.depth 0 a b hs hd
 
 theorem prefix_stable_codec2 : C15_prefix_stable codec2 :=
-  fun env a b hs hd => parseD_stable codec2 codec2_good env.mem env.depth a b hs hd
+  fun env a b hs hd => parseD_stable codec2 codec2_good env.mem env.depth 0 a b hs hd
 
-/-- consequently "more bytes needed" is never contradicted by an earlier decision: if the decoder
-    is still undecided on `a ++ b` it was undecided on `a` -/
+/-- consequently "more bytes needed" is never contradicted by an earlier decision -/
 theorem incomplete_prefix (c : Codec) (h : c = codec1 ∨ c = codec2) (env : Env) (a b : Bytes)
     (hs : Small (a ++ b)) (hi : (parseG c env (a ++ b)).out.isIncomplete = true) :
     (parseG c env a).out.isIncomplete = true := by
-  have hc : c.Good := by cases h with
-    | inl h => subst h; exact codec1_good
-    | inr h => subst h; exact codec2_good
+  obtain ⟨hg, _, _, _⟩ := good_of c h
   cases hd : (parseG c env a).out.isIncomplete with
   | true => rfl
   | false =>
-    have := parseD_stable c hc env.mem env.depth a b hs hd
+    have := parseD_stable c hg env.mem env.depth 0 a b hs hd
     unfold parseG at hi hd
     rw [this, hd] at hi
     exact absurd hi (by decide)
 
 example : (parse1 env0 (getK ++ [1, 2, 3])).out = (parse1 env0 getK).out := rfl
 
-/-- full statement: "more bytes needed" is honest — some continuation gets a decision -/
-def C15_incomplete_completable (c : Codec) : Prop :=
-  ∀ (env : Env) (bs : Bytes), 1 ≤ env.depth → (parseG c env bs).out.isIncomplete = true →
-    ∃ ext : Bytes, (parseG c env (bs ++ ext)).out.isIncomplete = false
+/-! ## 6. "more bytes needed" is honest for lines -/
 
-/-- codec 1 `find_crlf` gives up at the first CR that is not followed by LF: after `+\ra` NO
-    continuation is ever accepted or rejected — the connection stalls (codec 2 reads the line up to
-    the next CR LF) -/
-theorem lone_cr_stalls (env : Env) (hd : 1 ≤ env.depth) (ext : Bytes) :
-    (parse1 env (loneCr ++ ext)).out = .incomplete .noCrlf := by
-  unfold parse1 parseG
+/-- full statement: a `+` / `-` / `:` line is decided as soon as a CR LF has arrived, whatever
+    precedes it (in particular a CR that is not followed by LF) -/
+def C15_line_completable (c : Codec) : Prop :=
+  ∀ (env : Env) (t : Nat) (s : Bytes), 1 ≤ env.depth → (t = 43 ∨ t = 45 ∨ t = 58) →
+    (parseG c env (t :: (s ++ [13, 10]))).out.isIncomplete = false
+
+theorem findCrlf2_some : ∀ (s : Bytes), ∃ p, findCrlf2 (s ++ [13, 10]) = some p := by
+  intro s
+  induction s with
+  | nil => exact ⟨0, by simp [findCrlf2]⟩
+  | cons x xs ih =>
+    obtain ⟨p, hp⟩ := ih
+    cases hxs : xs ++ [13, 10] with
+    | nil => simp at hxs
+    | cons y ys =>
+      simp only [List.cons_append, hxs]
+      unfold findCrlf2
+      split
+      · exact ⟨0, rfl⟩
+      · rw [← hxs, hp]; exact ⟨p + 1, rfl⟩
+
+theorem line_completable (c : Codec) (h : c = codec1 ∨ c = codec2) : C15_line_completable c := by
+  intro env t s hd ht
+  have hfc : c.findCrlf = findCrlf2 := by
+    cases h with
+    | inl h => subst h; rfl
+    | inr h => subst h; rfl
+  obtain ⟨p, hp⟩ := findCrlf2_some (t :: s)
+  simp only [List.cons_append] at hp
+  unfold parseG
+  cases hdep : env.depth with
+  | zero => omega
+  | succ d =>
+    unfold parseD
+    rcases ht with ht | ht | ht
+    · subst ht
+      simp only [if_true]
+      unfold parseLine
+      rw [hfc, hp]
+      simp only []
+      split <;> rfl
+    · subst ht
+      simp only [show ¬ (45 : Nat) = 43 by decide, if_false, if_true]
+      unfold parseLine
+      rw [hfc, hp]
+      simp only []
+      split <;> rfl
+    · subst ht
+      simp only [show ¬ (58 : Nat) = 43 by decide, show ¬ (58 : Nat) = 45 by decide, if_false, if_true]
+      unfold parseInt
+      rw [hfc, hp]
+      simp only []
+      split
+      · rfl
+      · split <;> rfl
+
+/-- PINNED behaviour (before fix c5a1b33): after `+\ra` NO continuation was ever accepted or rejected -/
+theorem lone_cr_stalls_pinned (env : Env) (hd : 1 ≤ env.depth) (ext : Bytes) :
+    (parseG codec1Pinned env (loneCr ++ ext)).out = .incomplete .noCrlf := by
+  unfold parseG
   cases h : env.depth with
   | zero => omega
-  | succ d => simp [loneCr, parseD, parseLine, codec1, findCrlf1]
+  | succ d => simp [loneCr, parseD, parseLine, codec1Pinned, findCrlf1]
 
-theorem incomplete_completable_counterexample : ¬ C15_incomplete_completable codec1 := by
+theorem line_completable_pinned_counterexample : ¬ C15_line_completable codec1Pinned := by
   intro h
-  obtain ⟨ext, he⟩ := h env0 loneCr (by decide) (by decide)
-  have := lone_cr_stalls env0 (by decide) ext
-  unfold parse1 at this
-  rw [this] at he
-  exact absurd he (by decide)
+  have h1 := h env0 43 [13, 97] (by decide) (Or.inl rfl)
+  have h2 := lone_cr_stalls_pinned env0 (by decide) [13, 10]
+  simp only [loneCr, List.cons_append, List.nil_append] at h2
+  simp only [List.cons_append, List.nil_append] at h1
+  rw [h2] at h1
+  exact absurd h1 (by decide)
 
-example : (parse2 env0 (loneCr ++ [13, 10])).out = .ok (.simple [13, 97]) 5 := rfl
+example : (parse1 env0 (loneCr ++ [13, 10])).out = .ok (.simple [13, 97]) 5 := rfl
 
-/-! ## 5. fragmentation invariance of the buffer loop -/
+/-! ## 7. fragmentation invariance of the buffer loop -/
 
 def C15_fragmentation_invariant (c : Codec) : Prop :=
   ∀ (env : Env) (chunks : List Bytes), 1 ≤ env.depth → Small chunks.flatten →
@@ -292,10 +327,8 @@ theorem parserSpec (c : Codec) (hc : c.Good) (env : Env) (hd : 1 ≤ env.depth) 
     cases h : env.depth with
     | zero => omega
     | succ d => simp [parseD, Outcome.isIncomplete]
-  consumed := fun bs hs => parseD_consumed c hc env.mem env.depth bs hs
-  stable := fun a b hs hdec => by
-    have := parseD_stable c hc env.mem env.depth a b hs hdec
-    simp only [parseG, this]
+  consumed := fun bs hs => parseD_consumed c hc env.mem env.depth 0 bs hs
+  stable := fun a b hs hdec => parseD_stable c hc env.mem env.depth 0 a b hs hdec
 
 /-- every fragmentation of every byte stream (valid or not) yields the frames, left-over bytes and
     liveness of the unfragmented feed -/
@@ -308,85 +341,66 @@ theorem fragmentation_invariant_codec2 : C15_fragmentation_invariant codec2 :=
 example : (feedAll (fun b => (parse1 env0 b).out) FeedSt.init [[43, 79], [75, 13], [10, 58, 49, 13, 10, 43]]).frames.length = 2 := by
   decide
 
-/-! ## 6. decode ∘ encode = id for each encoder -/
+/-! ## 8. decode ∘ encode for each encoder -/
 
-/-- full statement: every value of depth within the stack re-decodes to itself -/
+/-- full statement: every value of the server's reply type (`Val.wf`: integers are i64s, line texts
+    are strings of the decoder's string type) with at most 32 nested arrays is written as ONE frame
+    that decodes to the value with its reply lines as written on the wire (`Val.san`: CR / LF inside
+    a `+` / `-` line are a space); any bytes may follow -/
 def C15_encode_decode (enc : Val → Bytes) (c : Codec) : Prop :=
-  ∀ (env : Env) (v : Val) (rest : Bytes), v.depth ≤ env.depth → Small (enc v ++ rest) →
-    (parseG c env (enc v ++ rest)).out = .ok v (enc v).length
+  ∀ (env : Env) (v : Val) (rest : Bytes), v.wf c = true → v.depth ≤ env.depth → v.arr ≤ maxNesting →
+    Small (enc v ++ rest) → (parseG c env (enc v ++ rest)).out = .ok v.san (enc v).length
 
-/-- `-ERR unknown command 'FOO\r\n+INJECTED'`: an error whose text contains CR LF (the server
-    builds such replies from client bytes) -/
-def injected : Val := .error [70, 79, 79, 13, 10, 43, 73, 78, 74]
+theorem encode2_decode (c : Codec) (h : c = codec1 ∨ c = codec2) : C15_encode_decode encode2 c := by
+  obtain ⟨hg, hf, _, _⟩ := good_of c h
+  intro env v rest hw hd ha hs
+  exact parseD_encode c hg maxNesting hf env.mem env.depth 0 v hd (by omega) hw rest hs
 
-/-- the line ends at the embedded CR LF: the rest of the reply is read as further frames -/
-theorem crlf_in_error_counterexample :
-    (parse1 env0 (encode2 injected)).out = .ok (.error [70, 79, 79]) 6 ∧
-    (parse2 env0 (encode2 injected)).out = .ok (.error [70, 79, 79]) 6 ∧
-    encode1 injected = encode2 injected ∧ encode3 injected = encode2 injected ∧
-    (encode2 injected).length = 12 := ⟨rfl, rfl, by decide, by decide, by decide⟩
-
-theorem encode_decode_counterexample (c : Codec) (h : c = codec1 ∨ c = codec2) :
-    ¬ C15_encode_decode encode2 c := by
-  intro hall
-  have h1 := hall env0 injected [] (by decide) (by decide)
-  cases h with
-  | inl h =>
-    subst h
-    have h2 := crlf_in_error_counterexample.1
-    simp only [List.append_nil] at h1
-    unfold parse1 at h2
-    rw [h2] at h1
-    injection h1 with _ h3
-    exact absurd h3 (by decide)
-  | inr h =>
-    subst h
-    have h2 := crlf_in_error_counterexample.2.1
-    simp only [List.append_nil] at h1
-    unfold parse2 at h2
-    rw [h2] at h1
-    injection h1 with _ h3
-    exact absurd h3 (by decide)
-
-/-- a simple string with a lone CR (`+a\rb\r\n`): codec 1 never finds the end of the line, codec 2
-    re-decodes it -/
-theorem cr_in_line_counterexample :
-    (parse1 env0 (encode2 (.simple [97, 13, 98]))).out = .incomplete .noCrlf ∧
-    (parse2 env0 (encode2 (.simple [97, 13, 98]))).out = .ok (.simple [97, 13, 98]) 6 := ⟨rfl, rfl⟩
-
-/-- PARTIAL: every value whose simple-string / error lines are line-safe for the decoder
-    (`Val.wf`: codec 1 — no CR; codec 2 — no CR LF pair and valid UTF-8), whose integers are i64s and
-    whose array pre-allocations are granted re-decodes to itself, with any bytes following -/
-theorem encode2_decode_partial (c : Codec) (h : c = codec1 ∨ c = codec2) (env : Env) (v : Val) (rest : Bytes)
-    (hw : v.wf c env.mem = true) (hd : v.depth ≤ env.depth) (hs : Small (encode2 v ++ rest)) :
-    (parseG c env (encode2 v ++ rest)).out = .ok v (encode2 v).length := by
-  have hc : c.Good := by cases h with
-    | inl h => subst h; exact codec1_good
-    | inr h => subst h; exact codec2_good
-  exact parseD_encode c hc env.mem env.depth v hd hw rest hs
-
-theorem encode1_decode_partial (c : Codec) (h : c = codec1 ∨ c = codec2) (env : Env) (v : Val) (rest : Bytes)
-    (hw : v.wf c env.mem = true) (hd : v.depth ≤ env.depth) (hs : Small (encode1 v ++ rest)) :
-    (parseG c env (encode1 v ++ rest)).out = .ok v (encode1 v).length := by
+theorem encode1_decode (c : Codec) (h : c = codec1 ∨ c = codec2) : C15_encode_decode encode1 c := by
+  intro env v rest hw hd ha hs
   rw [encode1_eq] at hs ⊢
-  exact encode2_decode_partial c h env v rest hw hd hs
+  exact encode2_decode c h env v rest hw hd ha hs
 
-theorem encode3_decode_partial (c : Codec) (h : c = codec1 ∨ c = codec2) (env : Env) (v : Val) (rest : Bytes)
-    (hw : v.wf c env.mem = true) (hd : v.depth ≤ env.depth) (hs : Small (encode3 v ++ rest)) :
-    (parseG c env (encode3 v ++ rest)).out = .ok v (encode3 v).length := by
+theorem encode3_decode (c : Codec) (h : c = codec1 ∨ c = codec2) : C15_encode_decode encode3 c := by
+  intro env v rest hw hd ha hs
   rw [encode3_eq] at hs ⊢
-  exact encode2_decode_partial c h env v rest hw hd hs
+  exact encode2_decode c h env v rest hw hd ha hs
+
+/-- … and a value whose lines contain neither CR nor LF decodes back to ITSELF -/
+theorem encode_decode_plain (c : Codec) (h : c = codec1 ∨ c = codec2) (env : Env) (v : Val) (rest : Bytes)
+    (hw : v.wf c = true) (hp : v.plain = true) (hd : v.depth ≤ env.depth) (ha : v.arr ≤ maxNesting)
+    (hs : Small (encode2 v ++ rest)) :
+    (parseG c env (encode2 v ++ rest)).out = .ok v (encode2 v).length := by
+  have := encode2_decode c h env v rest hw hd ha hs
+  rw [san_plain v hp] at this
+  exact this
 
 /-- the three encoders produce the same bytes -/
 theorem encoders_agree (v : Val) : encode1 v = encode2 v ∧ encode3 v = encode2 v :=
   ⟨encode1_eq v, encode3_eq v⟩
 
-/-- non-vacuity: a nested reply with a UTF-8 simple string, a binary bulk string containing CR LF,
-    i64::MIN, nulls — well-formed for both decoders; the CR-LF error is not -/
-def reply : Val := .array [.simple [79, 75, 195, 169], .bulk [13, 10, 255, 0], .int (-9223372036854775808),
-  .nullBulk, .array [.nullArray, .error [69, 82, 82, 32, 120]]]
+/-- `-ERR unknown command 'FOO\r\n+INJECTED'`: an error whose text contains CR LF (the server
+    builds such replies from client bytes) -/
+def injected : Val := .error [70, 79, 79, 13, 10, 43, 73, 78, 74]
 
-example : reply.wf codec1 env0.mem = true ∧ reply.wf codec2 env0.mem = true ∧ reply.depth ≤ env0.depth ∧
-    injected.wf codec1 env0.mem = false ∧ injected.wf codec2 env0.mem = false := by decide
+/-- the reply is ONE frame now -/
+example : (parse1 env0 (encode2 injected)).out = .ok (.error [70, 79, 79, 32, 32, 43, 73, 78, 74]) 12 ∧
+    (parse2 env0 (encode3 injected)).out = .ok (.error [70, 79, 79, 32, 32, 43, 73, 78, 74]) 12 := ⟨rfl, rfl⟩
+
+/-- PINNED behaviour (before fix c46fb96): the line ended at the embedded CR LF, the rest of the reply
+    was read as further frames -/
+theorem crlf_in_error_pinned_counterexample :
+    (parse1 env0 (encode2Pinned injected)).out = .ok (.error [70, 79, 79]) 6 ∧
+    (parse2 env0 (encode2Pinned injected)).out = .ok (.error [70, 79, 79]) 6 ∧
+    encode1Pinned injected = encode2Pinned injected ∧ (encode2Pinned injected).length = 12 :=
+  ⟨rfl, rfl, by decide, by decide⟩
+
+/-- non-vacuity: a nested reply with a UTF-8 simple string, a binary bulk string containing CR LF,
+    i64::MIN, nulls, an error with CR LF — a value of the reply type for both decoders -/
+def reply : Val := .array [.simple [79, 75, 195, 169], .bulk [13, 10, 255, 0], .int (-9223372036854775808),
+  .nullBulk, .array [.nullArray, .error [69, 82, 82, 13, 10, 120]]]
+
+example : reply.wf codec1 = true ∧ reply.wf codec2 = true ∧ reply.depth ≤ env0.depth ∧ reply.arr ≤ maxNesting ∧
+    reply.plain = false ∧ (Val.simple [255]).wf codec2 = false := by decide
 
 end RedisVerif.C15
